@@ -15,6 +15,7 @@ import (
 	configv1alpha1 "github.com/furiko-io/furiko/apis/config/v1alpha1"
 	execution "github.com/furiko-io/furiko/apis/execution/v1alpha1"
 	"github.com/furiko-io/furiko/pkg/execution/controllers/croncontroller"
+	"github.com/furiko-io/furiko/pkg/execution/stores/activejobstore"
 )
 
 // Family "cron" (C01, C03, C04): the real CronWorker + InformerWorker driven by a
@@ -464,8 +465,41 @@ func (g *cronGen) genVersion(name string, key int64, uid string, now int64) *jcV
 	return v
 }
 
+// cronStandbyCheck: a cron controller that has been constructed but not started (a standby
+// replica under leader election) must not collect JobConfig events: whatever it buffers is
+// replayed as a schedule change right after the catch-up heap is built at start, re-basing the
+// JobConfig on the start time and dropping its missed schedule times (C04) - the real
+// NewController is built on the simulated context and a schedule edit is delivered to it.
+func cronStandbyCheck(res *Result) {
+	sc := NewSimContext()
+	st, err := activejobstore.NewStore(sc)
+	if err != nil {
+		panic(err)
+	}
+	sc.RegisterStore(st)
+	rjc := &execution.JobConfig{ObjectMeta: metav1.ObjectMeta{Namespace: "ns", Name: "standby", UID: "uid-standby"}}
+	rjc.Spec.Schedule = &execution.ScheduleSpec{Cron: &execution.CronSchedule{Expression: "0 * * * *"}}
+	sc.informers.JobConfigs.Set(rjc)
+	sc.informers.JobConfigs.DeliverAll()
+	ctrl, err := croncontroller.NewController(sc, &configv1alpha1.Concurrency{Workers: 1})
+	if err != nil {
+		panic(err)
+	}
+	edited := rjc.DeepCopy()
+	edited.Spec.Schedule.Cron.Expression = "*/5 * * * *"
+	sc.informers.JobConfigs.Set(edited)
+	sc.informers.JobConfigs.DeliverAll()
+	res.Count("standby-check")
+	if n := ctrl.VerifUpdatedConfigsLen(); n != 0 {
+		res.Hits = append(res.Hits, MonitorHit{"C04", "C04/standby-controller-buffers-schedule-edits",
+			fmt.Sprintf("a constructed but not yet started cron controller buffered %d schedule edit(s): at start they are flushed after the catch-up heap is built, the JobConfig is re-based on the start time and its missed schedule times are never requested", n),
+			map[string]interface{}{"steps": "NewController; JobConfig schedule edited; event delivered; (Run not called)"}})
+	}
+}
+
 func runCron(ctx *RunCtx) *Result {
 	res := NewResult()
+	cronStandbyCheck(res)
 	p := NewPRNG(ctx.Seed)
 	tzs := tzChoices()
 	var timeouts int
